@@ -3,6 +3,7 @@ from ..core import Rule
 from ..prog import *
 from ..facts import AnalysisBroken
 from .. import dnsenc as E
+from ..interp import normx, nkey, run_all
 
 UNITS = ["evdns"]
 LEVEL = "other"
@@ -32,4 +33,92 @@ def run(ctx, config):
     if len(tc) != 1 or len(clamp) != 1 or tc[0].bid != clamp[0].bid:
         r.bad("K3:evdns_server_request_format_response:truncation", "%s:%d" % (f.file, f.line), f.name, "overflow path does not both clamp the length and set TC")
     rules.append(r)
+    rules.append(rule_sections(P))
     return rules
+
+
+
+def rule_sections(P):
+    """evdns_server_request_add_reply evaluated on an abstract heap for every sequence of up to three additions over the three sections: afterwards each
+    section's list holds exactly the records added to that section, in order of addition, its count equals the length of its list, other sections untouched"""
+    import itertools
+    r = Rule("C35-sections", "K6", "server replies: a record added to a section is linked at the tail of that section's list and counted there (all sequences of <= 3 additions)", floor=30)
+    f = P.fn("evdns_server_request_add_reply")
+    enumv = {}
+    for e in P.enums.values():
+        for n, v in e["items"]:
+            enumv[n] = v
+    from .C27 import macro_consts
+    mc = {}
+    for g in [f]:
+        for el in list(g.elems()):
+            for q in walk(el.e):
+                if is_e(q, "int") and len(q) > 2 and isinstance(q[2], str) and q[2].startswith("EVDNS_") and q[2].endswith("_SECTION"):
+                    mc[q[2]] = q[1]
+        for b in g.blocks.values():
+            if b.label and b.label[0] == "case" and len(b.label) > 2 and isinstance(b.label[2], str) and b.label[2].endswith("_SECTION"):
+                mc[b.label[2]] = b.label[1]
+    SEC = [("answer", mc.get("EVDNS_ANSWER_SECTION", 0)), ("authority", mc.get("EVDNS_AUTHORITY_SECTION", 1)), ("additional", mc.get("EVDNS_ADDITIONAL_SECTION", 2))]
+    # start after the container_of declaration of `req`
+    start = None
+    for el in f.elems():
+        if el.e[0] == "decl" and el.e[1] == "req":
+            start = (el.bid, el.idx + 1)
+    if start is None:
+        r.brk("declaration of req not found in evdns_server_request_add_reply")
+        return r
+    C = lambda o, fl: ("@", o, "server_request.%s" % fl)
+    I = lambda o, fl: ("@", o, "server_reply_item.%s" % fl)
+    nb = 0
+    for ln in (1, 2, 3):
+        for seq in itertools.product(range(3), repeat=ln):
+            env = {("@", "req", "#zero"): 1, ("@", "port", "#zero"): 1, C("req", "port"): PPtr("port"), C("req", "response"): 0,
+                   C("req", "answer"): 0, C("req", "authority"): 0, C("req", "additional"): 0, C("req", "n_answer"): 0, C("req", "n_authority"): 0, C("req", "n_additional"): 0,
+                   ("@", "port", "evdns_server_port.lock"): 0}
+            ok = True
+            for step, sidx in enumerate(seq):
+                e0 = dict(env)
+                e0.update({"#typed": 1, "req": PPtr("req"), "event_debug_logging_mask_": 0, "result": -1})
+                vals = [0, SEC[sidx][1], 7000, 1, 1, 100 + step, 0, 0, 0]
+                for (pn, pt), v in zip(f.params, vals):
+                    e0[pn] = v
+
+                def hook(el, e_):
+                    n = callee_name(el.e)
+                    if n in ("event_mm_malloc_",):
+                        k = e_.get("#nalloc", 0)
+                        e_["#nalloc"] = k + 1
+                        e_[("@", ("n", k), "#zero")] = 1
+                        return PPtr(("n", k))
+                    if n in ("event_mm_strdup_",):
+                        return 8000
+                    if n in ("event_mm_free_", "evthread_is_debug_lock_held_"):
+                        return 0
+                    return None
+                outs = [o for o in run_all(f, start, e0, lambda el: False, P, hook, max_steps=400) if not (o.kind == "exit" and o.why == "noreturn")]
+                if len(outs) != 1 or outs[0].kind != "ret":
+                    r.brk("evdns_server_request_add_reply%s: %s" % (list(seq), [(o.kind, o.why) for o in outs][:2]))
+                    return r
+                env = dict((k, v) for k, v in outs[0].env.items() if (isinstance(k, tuple) and k and k[0] == "@") or k == "#nalloc")
+            # read the lists back
+            got = {}
+            for name, _ in SEC:
+                lst = []
+                p = env.get(C("req", name))
+                seen = 0
+                while isinstance(p, PPtr) and seen < 8:
+                    lst.append(env.get(I(p.id, "ttl")))
+                    p = env.get(I(p.id, "next"), 0)
+                    seen += 1
+                got[name] = (lst, env.get(C("req", "n_" + name)))
+            want = {}
+            for name, _ in SEC:
+                ttls = [100 + st for st, sidx in enumerate(seq) if SEC[sidx][0] == name]
+                want[name] = (ttls, len(ttls))
+            r.inst(seq, {"additions": [SEC[s_][0] for s_ in seq], "lists": {k: v[0] for k, v in got.items()}, "counts": {k: v[1] for k, v in got.items()}})
+            if got != want and nb < 5:
+                nb += 1
+                r.bad("K6:evdns_server_request_add_reply:section-lists", "%s:%d" % (f.file, f.line), f.name,
+                      "after adding records to %s (ttl 100, 101, ...) the sections hold %s; each section must hold exactly its own records in order of addition, counted: %s" % (
+                          [SEC[s_][0] for s_ in seq], got, want))
+    return r
